@@ -99,7 +99,7 @@ pub fn check_interpreter_accepts(w: &mut World, actor: &str, tx: &Transaction, i
             }
             let t_sigs: BTreeSet<(Vec<u8>, Vec<u8>)> = trace.sig_checks.iter().filter(|s| s.ok).map(|s| (s.pubkey.clone(), s.sig.clone())).collect();
             let digests: BTreeSet<Vec<u8>> = env.uni.hashes.iter().map(|h| h.digest.clone()).collect();
-            let t_pre: BTreeSet<Vec<u8>> = trace.hash_checks.iter().filter(|h| h.preimage.len() == 32 && digests.contains(&h.digest)).map(|h| h.preimage.clone()).collect();
+            let t_pre: BTreeSet<Vec<u8>> = trace.hash_checks.iter().filter(|h| h.matched && h.preimage.len() == 32 && digests.contains(&h.digest)).map(|h| h.preimage.clone()).collect();
             let t_abs: BTreeSet<u32> = trace.cltv.iter().map(|x| *x as u32).collect();
             let t_rel: BTreeSet<u32> = trace.csv.iter().map(|x| *x as u32).collect();
             let is_script = matches!(kind, OutKind::Wsh | OutKind::ShWsh | OutKind::ShMs | OutKind::TrScript | OutKind::Bare);
